@@ -26,6 +26,12 @@ Theorem C14_finder_sound_tet : forall eps mesh nt cand xs r,
 Proof. exact tet_finder_sound. Qed.
 Print Assumptions C14_finder_sound_tet.
 
+(* an empty batch of points gives the empty list of cells (the code returns at once; so does the model) *)
+Theorem C14_finder_empty_batch : forall (P : Type) (inside : nat -> P -> bool) nt cand,
+    gen_tri_finder inside nt cand [] = Some [] /\ gen_tet_finder inside nt cand [] = Some [].
+Proof. intros. split; [apply gen_tri_finder_empty | apply gen_tet_finder_empty]. Qed.
+Print Assumptions C14_finder_empty_batch.
+
 (* the inside test with slack 0 characterises the closed simplex: it passes iff the point is a convex combination of the
    cell's vertices (every non-degenerate triangle / tetrahedron, every point) *)
 Theorem C14_inside_iff_in_triangle : forall (P : nat -> nat -> Q), ~ gen_detA2 (gen_A P) == 0 -> forall x,
